@@ -239,12 +239,75 @@ class Tree(SHA256):
         raise RuntimeError("raw bits not scripted")
 
 
-def enumerate_tree(run, limit=200000):
+class TreeRS(np.random.RandomState):
+    """the same scripted generator, but an instance of numpy.random.RandomState, so that code which
+    branches on the generator's type takes its NumPy path.  Every method is uniform over its
+    outcomes when the scripted picks are uniform (Fisher-Yates along the first axis for shuffle,
+    as NumPy does), so the leaf weights are exact probabilities under an ideal RandomState."""
+
+    def __init__(self, prefix=()):
+        super().__init__(0)
+        self.prefix = list(prefix)
+        self.pos = 0
+        self.path = []
+
+    pick = Tree.pick
+
+    def random(self, size=None):
+        if size is None:
+            raise RuntimeError("scalar random() not scripted")
+        n = int(np.prod(size))
+        return np.array([(self.pick(n - i, "fy") + 0.5) / (n - i) for i in range(n)], dtype=float)
+
+    random_sample = random
+
+    def randint(self, low, high=None, size=None, dtype=int):
+        if high is None:
+            low, high = 0, low
+        low, high = int(low), int(high)
+        if size is None:
+            return dtype(low + self.pick(high - low, "randint"))
+        return np.array([low + self.pick(high - low, "randint") for _ in range(int(np.prod(size)))], dtype=dtype).reshape(size)
+
+    def shuffle(self, x):
+        n = len(x)
+        for i in reversed(range(1, n)):
+            j = self.pick(i + 1, "randbelow")
+            if j != i:
+                if isinstance(x, np.ndarray) and x.ndim > 1:
+                    tmp = x[i].copy(); x[i] = x[j]; x[j] = tmp
+                else:
+                    x[i], x[j] = x[j], x[i]
+
+    def permutation(self, x):
+        a = np.arange(x) if isinstance(x, (int, np.integer)) else np.array(x)
+        self.shuffle(a)
+        return a
+
+    def choice(self, a, size=None, replace=True, p=None):
+        if p is not None:
+            raise RuntimeError("weighted choice not scripted")
+        pool = list(range(a)) if isinstance(a, (int, np.integer)) else list(a)
+        if size is None:
+            return pool[self.pick(len(pool), "choice")]
+        out = []
+        for _ in range(int(np.prod(size))):
+            k = self.pick(len(pool), "choice")
+            out.append(pool[k] if replace else pool.pop(k))
+        return np.array(out).reshape(size)
+
+    def _unscripted(self, *a, **k):
+        raise RuntimeError("generator method not scripted")
+
+    rand = uniform = random_integers = bytes = normal = standard_normal = binomial = randn = tomaxint = _unscripted
+
+
+def enumerate_tree(run, limit=200000, cls=None):
     """yield (weight, result, path) over the whole choice tree of run(prng)"""
     prefix = []
     leaves = 0
     while True:
-        t = Tree(prefix)
+        t = (cls or Tree)(prefix)
         res = run(t)
         path = t.path
         w = Fraction(1)
